@@ -320,6 +320,133 @@ func relayout(r *rand.Rand, b []byte) ([]byte, error) {
 	return out.Bytes(), nil
 }
 
+// aligned re-encodes the top-level object (member order: sorted, reversed, declaration split around the
+// rest, or as it was) and pads it with white space after the opening brace so that one top-level token
+// boundary (end of a member value, after the comma, after a key, after the colon, or inside a
+// declaration value) lies exactly on a typical buffer size.
+func aligned(r *rand.Rand, b []byte) ([]byte, bool) {
+	dec := json.NewDecoder(bytes.NewReader(b))
+	dec.UseNumber()
+	v, err := decodeOrdered(dec)
+	top, ok := v.(*omap)
+	if err != nil || !ok || len(top.keys) < 2 {
+		return nil, false
+	}
+	idx := make([]int, len(top.keys))
+	for i := range idx {
+		idx[i] = i
+	}
+	isDecl := func(k string) bool { return k == "bomFormat" || k == "specVersion" || k == "spdxVersion" }
+	switch r.Intn(4) {
+	case 0:
+		sort.Slice(idx, func(i, j int) bool { return top.keys[idx[i]] < top.keys[idx[j]] })
+	case 1:
+		sort.Slice(idx, func(i, j int) bool { return top.keys[idx[i]] > top.keys[idx[j]] })
+	case 2:
+		// first declaration member first, the other declaration members last
+		var first, mid, last []int
+		for _, i := range idx {
+			switch {
+			case isDecl(top.keys[i]) && len(first) == 0:
+				first = append(first, i)
+			case isDecl(top.keys[i]):
+				last = append(last, i)
+			default:
+				mid = append(mid, i)
+			}
+		}
+		if len(last) == 0 && len(first) == 1 && r.Intn(2) == 0 {
+			first, last = nil, first
+		}
+		idx = append(append(first, mid...), last...)
+	}
+	raw := func(v any) []byte {
+		var out bytes.Buffer
+		var emit func(v any)
+		emit = func(v any) {
+			switch x := v.(type) {
+			case *omap:
+				out.WriteByte('{')
+				for i := range x.keys {
+					if i > 0 {
+						out.WriteByte(',')
+					}
+					kb, _ := json.Marshal(x.keys[i])
+					out.Write(kb)
+					out.WriteByte(':')
+					emit(x.vals[i])
+				}
+				out.WriteByte('}')
+			case []any:
+				out.WriteByte('[')
+				for i, e := range x {
+					if i > 0 {
+						out.WriteByte(',')
+					}
+					emit(e)
+				}
+				out.WriteByte(']')
+			case string:
+				sb, _ := json.Marshal(x)
+				out.Write(sb)
+			case json.Number:
+				out.WriteString(x.String())
+			case bool:
+				fmt.Fprint(&out, x)
+			case nil:
+				out.WriteString("null")
+			}
+		}
+		emit(v)
+		return out.Bytes()
+	}
+	var out bytes.Buffer
+	var cuts []int
+	out.WriteByte('{')
+	for n, i := range idx {
+		if n > 0 {
+			out.WriteByte(',')
+			cuts = append(cuts, out.Len()) // after the comma
+		}
+		kb, _ := json.Marshal(top.keys[i])
+		out.Write(kb)
+		cuts = append(cuts, out.Len()) // after the key
+		out.WriteByte(':')
+		cuts = append(cuts, out.Len()) // after the colon
+		vb := raw(top.vals[i])
+		if isDecl(top.keys[i]) && len(vb) > 2 {
+			cuts = append(cuts, out.Len()+1+r.Intn(len(vb)-1)) // inside a declaration value
+		}
+		out.Write(vb)
+		cuts = append(cuts, out.Len(), out.Len(), out.Len()) // end of the member value (the favourite)
+	}
+	out.WriteByte('}')
+	cut := cuts[r.Intn(len(cuts))]
+	sizes := []int{512, 1024, 2048, 4096, 4096, 4096, 8192, 16384, 32768, 32768, 65536}
+	var fit []int
+	for _, s := range sizes {
+		if s >= cut {
+			fit = append(fit, s)
+		}
+	}
+	if len(fit) == 0 {
+		return out.Bytes(), true
+	}
+	B := fit[r.Intn(len(fit))]
+	if r.Intn(3) == 0 {
+		B = fit[0]
+	}
+	pad := bytes.Repeat([]byte{' '}, B-cut)
+	for i := range pad {
+		if i%61 == 60 {
+			pad[i] = '\n'
+		}
+	}
+	res := append([]byte{'{'}, pad...)
+	res = append(res, out.Bytes()[1:]...)
+	return res, true
+}
+
 type omap struct {
 	keys []string
 	vals []any
@@ -424,7 +551,15 @@ func (Engine) Generate(prop string, verifSeed int64, tier string, idx int) *core
 	switch {
 	case k < 6:
 		sp.Kind = "writer-output"
-	case k < 10:
+	case k == 9:
+		// a re-encoding whose white space puts a top-level token boundary exactly on a buffer-size offset
+		sp.Kind = "aligned"
+		if nb, ok := aligned(r, b); ok {
+			b = nb
+		} else {
+			sp.Kind = "writer-output"
+		}
+	case k < 9:
 		sp.Kind = "relayout"
 		if nb, err := relayout(r, b); err == nil {
 			b = nb
